@@ -76,7 +76,7 @@ def run(ctx):
     H.replay_server(ctx, plain, apps=("delegate", "callback"))
     H.replay_server(ctx, ovr, apps=("delegate",))          # a request callback cannot set a per-request limit
     ctx.cov["exhaustive"] = True
-    n = ctx.pick(250, 20000)
+    n = ctx.pick(150, 20000)
     traces = framework.pool_map(record_random, [(i + 1, ctx.seed * 1000003 + 404 + i) for i in range(n)])
     H.validate(ctx, traces, H.classify_server)
     ctx.cov["rule"] = ("%d (wire, limit) cases: limits at header/body size -1/0/+1 (server limit and per-request override), gzip "
